@@ -19,7 +19,7 @@ LEVEL = "exploration"
 RULE = ("Complete depth-first enumeration of mutator sequences (put x {OKAY,WRTE,CLSE} x pairs, get x every pattern incl. None wildcards for which the model has a match, clear x pairs, clear_all) "
         "with ALL observers (find, find_allow_zeros, `in`, len over every pattern incl. wildcards) evaluated at every node: ids {0,1,2}^2 to depth 3 and ids {0,1}^2 to depth 4 (quick) / depth 4 and 5 (thorough), "
         "each sequence replayed from an empty store; plus a Hypothesis RuleBasedStateMachine (<= 200 steps, ids from {0,1,2,7,2^32-1}). Oracle = reference model (dict pair -> deque), relational where the "
-        "statement allows a choice (any matching pair with a pending packet). A CLSE is only put for a pair that has pending packets (the other case is unspecified). "
+        "statement allows a choice (any matching pair with a pending packet). A CLSE is only put for a pair that has an entry, i.e. for which a packet was parked and not cleared since - its queue may be drained (a CLSE for a pair with no entry is unspecified). "
         "Non-trivial: node whose state has >= 2 pairs with pending packets, or an emptied queue. Distinct = mutator sequence (distinct by construction).")
 ASSUMPTIONS = ["reference model in this file", "sequences are replayed from an empty store, so no store internals are touched"]
 
@@ -125,7 +125,8 @@ def mutators(model, ids, patterns, counter):
     for (a0, a1) in pairs:
         for cmd in (OKAY, WRTE):
             yield ("put", a0, a1, cmd, b"d%d" % counter)
-        if model.q.get((a0, a1)):
+        if (a0, a1) in model.q:
+            # the pair has an entry: a packet was parked for it and it was not cleared since (its queue may have been drained)
             yield ("put", a0, a1, CLSE, b"")
     for pat in patterns:
         if model.matches(pat):
@@ -223,10 +224,10 @@ class StoreMachine(RuleBasedStateMachine):
         self.n += 1
         self._do(("put", a0, a1, cmd, b"d%d" % self.n))
 
-    @precondition(lambda self: bool(self.model.pending_pairs()))
+    @precondition(lambda self: bool(self.model.q))
     @rule(data=st.data())
     def put_clse(self, data):
-        a0, a1 = data.draw(st.sampled_from(self.model.pending_pairs()))
+        a0, a1 = data.draw(st.sampled_from(list(self.model.q)))
         self._do(("put", a0, a1, CLSE, b""))
 
     @precondition(lambda self: bool(self.model.pending_pairs()))
